@@ -299,62 +299,77 @@ Proof.
   apply nth_error_None in E. unfold wfr in Hw. lia.
 Qed.
 
-Lemma clause_active_true : forall c r l,
-  wfr c r -> forallb (is_tracked c) l = true -> clause_active c r l = true.
+(* r.Time.MTimeTracked[m.Index1(s)] for a tracked state *)
+Lemma at_tracked_tick : forall c r s,
+  wfr c r -> is_tracked c s = true ->
+  at_tracked r (tracked_index c s) = Some (tracked_tick c r s).
 Proof.
-  induction l as [|s l IH]; intros Hw H; [reflexivity|].
-  cbn [forallb] in H. apply andb_true_iff in H. destruct H as [Hs Hl].
-  destruct (tracked_index_spec _ _ Hs) as (i & _ & Hi & Hlt).
-  cbn [clause_active]. rewrite Hi. destruct (at_tracked_some c r i Hw Hlt) as [t Ht]. rewrite Ht.
-  destruct (negb (active_tick t)); apply IH; assumption.
+  intros c r s Hw Hs. destruct (tracked_index_spec _ _ Hs) as (i & Hp & Hi & Hlt).
+  rewrite Hi, at_tracked_nat. unfold tracked_tick. rewrite Hp.
+  apply nth_error_nth'. unfold wfr in Hw. lia.
 Qed.
 
 Definition owf (c : hcfg) (o : option hrec) : Prop :=
   match o with Some x => wfr c x | None => True end.
 
-Lemma clause_activated_true : forall c r o l,
-  wfr c r -> owf c o -> forallb (is_tracked c) l = true -> clause_activated c r o l = true.
-Proof.
-  induction l as [|s l IH]; intros Hw Ho H; [reflexivity|].
-  cbn [forallb] in H. apply andb_true_iff in H. destruct H as [Hs Hl].
-  destruct (tracked_index_spec _ _ Hs) as (i & _ & Hi & Hlt).
-  cbn [clause_activated]. rewrite Hi. destruct (at_tracked_some c r i Hw Hlt) as [t Ht]. rewrite Ht.
-  destruct (negb (active_tick t)); [apply IH; assumption|].
-  destruct o as [x|]; [|apply IH; assumption].
-  destruct (at_tracked_some c x i Ho Hlt) as [t' Ht']. rewrite Ht'. apply IH; assumption.
-Qed.
+Definition pass_if (b : bool) : cl_res := if b then CPass else CReject.
 
-Lemma clause_deactivated_true : forall c r o l,
-  wfr c r -> owf c o -> forallb (is_tracked c) l = true -> clause_deactivated c r o l = true.
+Lemma clause_active_spec : forall c r l,
+  wfr c r -> forallb (is_tracked c) l = true ->
+  clause_active c r l = pass_if (forallb (st_active c r) l).
 Proof.
-  induction l as [|s l IH]; intros Hw Ho H; [reflexivity|].
+  induction l as [|s l IH]; intros Hw H; [reflexivity|].
   cbn [forallb] in H. apply andb_true_iff in H. destruct H as [Hs Hl].
-  destruct (tracked_index_spec _ _ Hs) as (i & _ & Hi & Hlt).
-  cbn [clause_deactivated]. rewrite Hi. destruct (at_tracked_some c r i Hw Hlt) as [t Ht]. rewrite Ht.
-  destruct (active_tick t); [apply IH; assumption|].
-  destruct o as [x|]; [|apply IH; assumption].
-  destruct (at_tracked_some c x i Ho Hlt) as [t' Ht']. rewrite Ht'. apply IH; assumption.
+  cbn [clause_active forallb]. rewrite at_tracked_tick by assumption.
+  unfold st_active at 1, active_tick.
+  destruct (N.odd (tracked_tick c r s)); cbn [negb andb]; [apply IH; assumption|reflexivity].
 Qed.
 
 Lemma clause_inactive_spec : forall c r l,
-  wfr c r -> clause_inactive r l = forallb (fun s => s <? length (c_tracked c)) l.
+  wfr c r -> forallb (is_tracked c) l = true ->
+  clause_inactive c r l = pass_if (forallb (st_inactive c r) l).
 Proof.
-  induction l as [|s l IH]; intros Hw; [reflexivity|].
-  cbn [clause_inactive forallb]. rewrite at_tracked_nat.
-  destruct (nth_error (r_tracked r) s) eqn:E.
-  - assert (s < length (r_tracked r)) by (apply nth_error_Some; congruence).
-    unfold wfr in Hw. destruct (Nat.ltb_spec s (length (c_tracked c))); [|lia].
-    cbn [andb]. apply IH. exact Hw.
-  - apply nth_error_None in E. unfold wfr in Hw.
-    destruct (Nat.ltb_spec s (length (c_tracked c))); [lia|]. reflexivity.
+  induction l as [|s l IH]; intros Hw H; [reflexivity|].
+  cbn [forallb] in H. apply andb_true_iff in H. destruct H as [Hs Hl].
+  cbn [clause_inactive forallb]. rewrite at_tracked_tick by assumption.
+  unfold st_inactive at 1, active_tick.
+  destruct (N.odd (tracked_tick c r s)); cbn [negb andb]; [reflexivity|apply IH; assumption].
 Qed.
 
-(* some Inactive state's machine index is past the tracked-times slice *)
-Definition inactive_oob (c : hcfg) (q : query) : bool :=
-  negb (forallb (fun s => s <? length (c_tracked c)) (q_inactive q)).
+Lemma clause_activated_spec : forall c r o l,
+  wfr c r -> owf c o -> forallb (is_tracked c) l = true ->
+  clause_activated c r o l = pass_if (forallb (rel_activated c r o) l).
+Proof.
+  induction l as [|s l IH]; intros Hw Ho H; [reflexivity|].
+  cbn [forallb] in H. apply andb_true_iff in H. destruct H as [Hs Hl].
+  cbn [clause_activated forallb]. rewrite at_tracked_tick by assumption.
+  unfold rel_activated at 1, active_tick.
+  destruct (N.odd (tracked_tick c r s)); cbn [negb andb]; [|reflexivity].
+  destruct o as [x|]; [|apply IH; assumption].
+  cbn [owf] in Ho. rewrite at_tracked_tick by assumption.
+  destruct (N.odd (tracked_tick c x s)); cbn [negb andb]; [reflexivity|apply IH; assumption].
+Qed.
+
+Lemma clause_deactivated_spec : forall c r o l,
+  wfr c r -> owf c o -> forallb (is_tracked c) l = true ->
+  clause_deactivated c r o l = pass_if (forallb (rel_deactivated c r o) l).
+Proof.
+  induction l as [|s l IH]; intros Hw Ho H; [reflexivity|].
+  cbn [forallb] in H. apply andb_true_iff in H. destruct H as [Hs Hl].
+  cbn [clause_deactivated forallb]. rewrite at_tracked_tick by assumption.
+  unfold rel_deactivated at 1, active_tick.
+  destruct (N.odd (tracked_tick c r s)); cbn [negb andb]; [reflexivity|].
+  destruct o as [x|]; [|apply IH; assumption].
+  cbn [owf] in Ho. rewrite at_tracked_tick by assumption.
+  destruct (N.odd (tracked_tick c x s)); cbn [negb andb]; [apply IH; assumption|reflexivity].
+Qed.
 
 Definition keep (c : hcfg) (q : query) (r : hrec) : bool :=
   negb (mtime_skip c q r) && negb (scalar_skip q r).
+
+(* what one round of the records loop decides *)
+Definition sel (c : hcfg) (q : query) (r : hrec) (o : option hrec) : bool :=
+  state_sat c q r o && keep c q r.
 
 Lemma validate_parts : forall c q,
   validate c q = true ->
@@ -376,21 +391,24 @@ Qed.
 
 Lemma rec_step_spec : forall c q r o,
   wfr c r -> owf c o -> validate c q = true ->
-  rec_step c q r o =
-    if inactive_oob c q then SPanic else if keep c q r then STake else SSkip.
+  rec_step c q r o = if sel c q r o then STake else SSkip.
 Proof.
   intros c q r o Hw Ho Hv. destruct (validate_parts _ _ Hv) as (H1 & H2 & H3 & H4 & _).
-  unfold rec_step, inactive_oob, keep.
-  rewrite clause_active_true, clause_activated_true, clause_deactivated_true by assumption.
-  rewrite (clause_inactive_spec c) by assumption. cbn [negb].
-  destruct (forallb (fun s => s <? length (c_tracked c)) (q_inactive q)); cbn [negb]; [|reflexivity].
+  unfold rec_step, sel, state_sat, keep.
+  rewrite clause_active_spec, clause_activated_spec, clause_inactive_spec,
+          clause_deactivated_spec by assumption.
+  destruct (forallb (st_active c r) (q_active q)); cbn [pass_if andb]; [|reflexivity].
+  destruct (forallb (rel_activated c r o) (q_activated q)); cbn [pass_if andb]; [|reflexivity].
+  destruct (forallb (st_inactive c r) (q_inactive q)); cbn [pass_if andb]; [|reflexivity].
+  destruct (forallb (rel_deactivated c r o) (q_deactivated q)); cbn [pass_if andb]; [|reflexivity].
   destruct (mtime_skip c q r); [reflexivity|]. destruct (scalar_skip q r); reflexivity.
 Qed.
 
 Definition tpos (t : nat * hrec * option hrec) : nat := fst (fst t).
 Definition trec (t : nat * hrec * option hrec) : hrec := snd (fst t).
+Definition told (t : nat * hrec * option hrec) : option hrec := snd t.
 Definition trip_wf (c : hcfg) (t : nat * hrec * option hrec) : Prop :=
-  wfr c (trec t) /\ owf c (snd t).
+  wfr c (trec t) /\ owf c (told t).
 
 Lemma with_older_wf : forall c db prev k,
   db_wf c db -> owf c prev -> Forall (trip_wf c) (with_older prev k db).
@@ -430,29 +448,21 @@ Proof.
 Qed.
 
 Lemma fl_loop_closed : forall c q limit l ret,
-  inactive_oob c q = false -> validate c q = true -> Forall (trip_wf c) l ->
+  validate c q = true -> Forall (trip_wf c) l ->
   limit_hit limit (length ret) = false ->
   fl_loop c q limit l ret =
-  FlOk (take_limit limit (ret ++ map tpos (filter (fun t => keep c q (trec t)) l))).
+  FlOk (take_limit limit (ret ++ map tpos (filter (fun t => sel c q (trec t) (told t)) l))).
 Proof.
-  intros c q limit l. induction l as [|t l IH]; intros ret Ho Hv Hw Hl.
+  intros c q limit l. induction l as [|t l IH]; intros ret Hv Hw Hl.
   - cbn. rewrite app_nil_r, take_limit_all by assumption. reflexivity.
   - inversion Hw as [|? ? [Hr Hol] Hw']; subst. destruct t as [[pos r] older].
-    cbn [fl_loop filter trec tpos fst snd] in *.
-    rewrite rec_step_spec, Ho by assumption.
-    destruct (keep c q r) eqn:Ek.
+    cbn [fl_loop filter trec told tpos fst snd] in *.
+    rewrite rec_step_spec by assumption.
+    destruct (sel c q r older) eqn:Ek.
     + cbn [map tpos fst]. destruct (limit_hit limit (length (ret ++ [pos]))) eqn:Eh.
       * rewrite take_limit_done by assumption. reflexivity.
       * rewrite IH by assumption. rewrite <- app_assoc. reflexivity.
     + apply IH; assumption.
-Qed.
-
-Lemma fl_loop_panics : forall c q limit t l ret,
-  inactive_oob c q = true -> validate c q = true -> trip_wf c t ->
-  fl_loop c q limit (t :: l) ret = FlPanic.
-Proof.
-  intros c q limit [[pos r] older] l ret Ho Hv [Hr Hol]. cbn [fl_loop].
-  cbn [trec fst snd] in *. rewrite rec_step_spec, Ho by assumption. reflexivity.
 Qed.
 
 Lemma limit_hit_0 : forall limit, limit_hit limit (@length nat []) = false.
@@ -461,43 +471,13 @@ Proof.
   cbn [andb]. apply Z.leb_gt. lia.
 Qed.
 
-Lemma find_latest_closed : forall c db limit q,
-  db_wf c db -> validate c q = true -> inactive_oob c q = false ->
+Lemma find_latest_closed_trip : forall c db limit q,
+  db_wf c db -> validate c q = true ->
   find_latest c db limit q =
-  FlOk (take_limit limit (map tpos (filter (fun t => keep c q (trec t)) (newest_first db)))).
+  FlOk (take_limit limit (map tpos (filter (fun t => sel c q (trec t) (told t)) (newest_first db)))).
 Proof.
-  intros c db limit q Hd Hv Ho. unfold find_latest. rewrite Hv. cbn [negb].
+  intros c db limit q Hd Hv. unfold find_latest. rewrite Hv. cbn [negb].
   rewrite fl_loop_closed; try assumption; [reflexivity|apply newest_first_wf; assumption|apply limit_hit_0].
-Qed.
-
-Lemma validate_strip : forall c q, validate c q = true -> validate c (strip_states q) = true.
-Proof.
-  intros c q H. destruct (validate_parts _ _ H) as (_ & _ & _ & _ & H5 & H6 & H7 & H8).
-  unfold validate, strip_states. cbn. rewrite forallb_app, H5, H6, H7, H8, !Nat.eqb_refl. reflexivity.
-Qed.
-
-(* the state conditions are ignored - or blow up *)
-Lemma find_latest_states_partial_lemma : forall c db limit q,
-  db_wf c db ->
-  find_latest c db limit q =
-    if negb (validate c q) then FlErr
-    else if inactive_oob c q && negb (is_nil db) then FlPanic
-    else find_latest c db limit (strip_states q).
-Proof.
-  intros c db limit q Hd. destruct (validate c q) eqn:Hv; cbn [negb].
-  2:{ unfold find_latest. rewrite Hv. reflexivity. }
-  assert (find_latest c db limit (strip_states q) =
-          FlOk (take_limit limit (map tpos (filter (fun t => keep c q (trec t)) (newest_first db))))) as Hs.
-  { rewrite find_latest_closed; [reflexivity|assumption|apply validate_strip; assumption|reflexivity]. }
-  destruct (inactive_oob c q) eqn:Ho; cbn [andb].
-  - destruct db as [|r db]; cbn [is_nil negb].
-    + unfold find_latest. rewrite Hv, (validate_strip _ _ Hv). reflexivity.
-    + unfold find_latest. rewrite Hv. cbn [negb].
-      pose proof (newest_first_wf c (r :: db) Hd) as Hw.
-      destruct (newest_first (r :: db)) as [|t l] eqn:En.
-      * unfold newest_first in En. cbn [with_older rev] in En. destruct (rev (with_older (Some r) 1 db)); discriminate.
-      * inversion Hw; subst. apply fl_loop_panics; assumption.
-  - rewrite Hs. apply find_latest_closed; assumption.
 Qed.
 
 (* ---- positions *)
@@ -508,29 +488,53 @@ Proof.
   destruct (f a); cbn [rev]; [reflexivity|apply app_nil_r].
 Qed.
 
-Lemma with_older_positions : forall (P : hrec -> bool) db prev k,
-  map tpos (filter (fun t => P (trec t)) (with_older prev k db)) =
-  filter (fun i => match nth_error db (i - k) with Some r => P r | None => false end)
+Definition older_from (prev : option hrec) (db : list hrec) (m : nat) : option hrec :=
+  match m with 0 => prev | S j => nth_error db j end.
+
+Lemma with_older_positions : forall (P : hrec -> option hrec -> bool) db prev k,
+  map tpos (filter (fun t => P (trec t) (told t)) (with_older prev k db)) =
+  filter (fun i => match nth_error db (i - k) with
+                   | Some r => P r (older_from prev db (i - k)) | None => false end)
          (seq k (length db)).
 Proof.
   induction db as [|r db IH]; intros prev k; [reflexivity|].
-  cbn [with_older filter length seq trec fst snd]. rewrite Nat.sub_diag. cbn [nth_error].
-  assert (filter (fun i => match nth_error (r :: db) (i - k) with Some r0 => P r0 | None => false end)
+  cbn [with_older filter length seq trec told fst snd]. rewrite Nat.sub_diag.
+  cbn [nth_error older_from].
+  assert (filter (fun i => match nth_error (r :: db) (i - k) with
+                           | Some r0 => P r0 (older_from prev (r :: db) (i - k)) | None => false end)
                  (seq (S k) (length db)) =
-          filter (fun i => match nth_error db (i - S k) with Some r0 => P r0 | None => false end)
+          filter (fun i => match nth_error db (i - S k) with
+                           | Some r0 => P r0 (older_from (Some r) db (i - S k)) | None => false end)
                  (seq (S k) (length db))) as E.
   { apply filter_ext_in. intros i Hi. apply in_seq in Hi.
-    replace (i - k) with (S (i - S k)) by lia. reflexivity. }
-  destruct (P r); cbn [map tpos fst]; rewrite IH, E; reflexivity.
+    replace (i - k) with (S (i - S k)) by lia. cbn [nth_error older_from].
+    destruct (i - S k); reflexivity. }
+  destruct (P r prev); cbn [map tpos fst]; rewrite IH, E; reflexivity.
 Qed.
 
-Lemma newest_first_positions : forall (P : hrec -> bool) db,
-  map tpos (filter (fun t => P (trec t)) (newest_first db)) =
-  filter (fun i => match nth_error db i with Some r => P r | None => false end)
-         (positions_desc (length db)).
+Lemma newest_first_positions : forall (P : hrec -> option hrec -> bool) db limit,
+  take_limit limit (map tpos (filter (fun t => P (trec t) (told t)) (newest_first db))) =
+  select_latest P db limit.
 Proof.
-  intros. unfold newest_first, positions_desc. rewrite !filter_rev', map_rev. f_equal.
-  rewrite with_older_positions. apply filter_ext. intros i. rewrite Nat.sub_0_r. reflexivity.
+  intros. unfold select_latest, newest_first, positions_desc. f_equal.
+  rewrite !filter_rev', map_rev. f_equal.
+  rewrite with_older_positions. apply filter_ext. intros i. rewrite Nat.sub_0_r.
+  destruct i; reflexivity.
+Qed.
+
+Lemma select_latest_ext : forall (P Q : hrec -> option hrec -> bool) db limit,
+  (forall i r, nth_error db i = Some r -> P r (older_of db i) = Q r (older_of db i)) ->
+  select_latest P db limit = select_latest Q db limit.
+Proof.
+  intros P Q db limit H. unfold select_latest. f_equal. apply filter_ext. intros i.
+  destruct (nth_error db i) eqn:E; [apply H; exact E|reflexivity].
+Qed.
+
+Lemma find_latest_closed : forall c db limit q,
+  db_wf c db -> validate c q = true ->
+  find_latest c db limit q = FlOk (select_latest (sel c q) db limit).
+Proof.
+  intros. rewrite find_latest_closed_trip by assumption. f_equal. apply newest_first_positions.
 Qed.
 
 (* ---- scalar / single-state ranges mean what they say *)
@@ -548,6 +552,104 @@ Proof.
   intros. unfold scalar_skip, scalar_sat. rewrite !range_skip_spec.
   repeat match goal with |- context [in_range ?a ?b ?c] => destruct (in_range a b c) end; reflexivity.
 Qed.
+
+Lemma keep_is_time_cond : forall c q r, keep c q r = time_cond_impl c q r.
+Proof. intros. unfold keep, time_cond_impl. rewrite scalar_skip_spec. reflexivity. Qed.
+
+(* FindLatest = the records satisfying the four state conditions (against the
+   previous stored record) and the time conditions, newest first, limited;
+   an error exactly for an invalid query; never a panic *)
+Lemma find_latest_state_conditions_lemma : forall c db limit q,
+  db_wf c db ->
+  find_latest c db limit q =
+    if negb (validate c q) then FlErr
+    else FlOk (select_latest (fun r o => state_sat c q r o && time_cond_impl c q r) db limit).
+Proof.
+  intros c db limit q Hd. destruct (validate c q) eqn:Hv; cbn [negb].
+  - rewrite find_latest_closed by assumption. f_equal. apply select_latest_ext.
+    intros. unfold sel. rewrite keep_is_time_cond. reflexivity.
+  - unfold find_latest. rewrite Hv. reflexivity.
+Qed.
+
+Lemma find_latest_never_panics_lemma : forall c db limit q,
+  db_wf c db -> find_latest c db limit q <> FlPanic.
+Proof.
+  intros c db limit q Hd. rewrite find_latest_state_conditions_lemma by assumption.
+  destruct (negb (validate c q)); discriminate.
+Qed.
+
+Lemma in_take_limit : forall {A} limit (l : list A) x, In x (take_limit limit l) -> In x l.
+Proof.
+  intros A limit l x H. unfold take_limit in H. destruct (0 <? limit)%Z; [|exact H].
+  rewrite <- (firstn_skipn (Z.to_nat limit) l). apply in_or_app. left. exact H.
+Qed.
+
+(* soundness, spelled out: every returned position holds a record that
+   satisfies all four state conditions and the time conditions *)
+Lemma find_latest_sound_lemma : forall c db limit q idxs i,
+  db_wf c db -> find_latest c db limit q = FlOk idxs -> In i idxs ->
+  exists r, nth_error db i = Some r /\
+    forallb (st_active c r) (q_active q) = true /\
+    forallb (rel_activated c r (older_of db i)) (q_activated q) = true /\
+    forallb (st_inactive c r) (q_inactive q) = true /\
+    forallb (rel_deactivated c r (older_of db i)) (q_deactivated q) = true /\
+    time_cond_impl c q r = true.
+Proof.
+  intros c db limit q idxs i Hd H Hi. rewrite find_latest_state_conditions_lemma in H by assumption.
+  destruct (negb (validate c q)); [discriminate|]. inversion H; subst; clear H.
+  unfold select_latest in Hi. apply in_take_limit in Hi. apply filter_In in Hi. destruct Hi as [_ Hi].
+  destruct (nth_error db i) as [r|]; [|discriminate]. exists r. split; [reflexivity|].
+  unfold state_sat in Hi. repeat (apply andb_true_iff in Hi; destruct Hi as [Hi ?]).
+  repeat split; assumption.
+Qed.
+
+(* completeness, spelled out: a record satisfying everything is returned
+   unless the limit was reached by newer records *)
+Lemma firstn_filter_desc_complete : forall (g : nat -> bool) n k i,
+  i < n -> g i = true ->
+  In i (firstn k (filter g (rev (seq 0 n)))) \/
+  (length (firstn k (filter g (rev (seq 0 n)))) = k /\
+   forall j, In j (firstn k (filter g (rev (seq 0 n)))) -> i < j).
+Proof.
+  intros g n. induction n as [|n IH]; intros k i Hi Hg; [lia|].
+  rewrite seq_S, rev_app_distr. cbn [rev app filter Nat.add].
+  destruct (Nat.eq_dec i n) as [->|Hne].
+  - rewrite Hg. destruct k; [right; split; [reflexivity|intros j []]|]. left. left. reflexivity.
+  - assert (i < n) as Hi' by lia.
+    destruct (g n).
+    + destruct k; [right; split; [reflexivity|intros j []]|].
+      cbn [firstn]. destruct (IH k i Hi' Hg) as [H|[Hl Hj]].
+      * left. right. exact H.
+      * right. split; [cbn [length]; rewrite Hl; reflexivity|].
+        intros j [<-|Hj']; [lia|apply Hj; exact Hj'].
+    + apply IH; assumption.
+Qed.
+
+Lemma find_latest_complete_lemma : forall c db limit q idxs i r,
+  db_wf c db -> find_latest c db limit q = FlOk idxs ->
+  nth_error db i = Some r ->
+  state_sat c q r (older_of db i) = true -> time_cond_impl c q r = true ->
+  In i idxs \/
+  ((0 < limit)%Z /\ Z.of_nat (length idxs) = limit /\ forall j, In j idxs -> i < j).
+Proof.
+  intros c db limit q idxs i r Hd H Hn Hs Ht.
+  rewrite find_latest_state_conditions_lemma in H by assumption.
+  destruct (negb (validate c q)); [discriminate|]. inversion H; subst; clear H.
+  unfold select_latest, positions_desc, take_limit.
+  set (g := fun i0 => match nth_error db i0 with
+                      | Some r0 => state_sat c q r0 (older_of db i0) && time_cond_impl c q r0
+                      | None => false end).
+  assert (g i = true) as Hg by (unfold g; rewrite Hn, Hs, Ht; reflexivity).
+  assert (i < length db) as Hi by (apply nth_error_Some; congruence).
+  destruct (Z.ltb_spec 0 limit) as [Hl|Hl].
+  - destruct (firstn_filter_desc_complete g (length db) (Z.to_nat limit) i Hi Hg) as [H|[H1 H2]].
+    + left. exact H.
+    + right. split; [exact Hl|]. split; [rewrite H1; lia|exact H2].
+  - left. apply filter_In. split; [|exact Hg]. apply in_rev. rewrite rev_involutive.
+    apply in_seq. lia.
+Qed.
+
+(* ---- the exact specification when the machine-time range names <= 1 state *)
 
 Lemma mtime_skip_spec : forall c q r,
   validate c q = true -> mtime_wf q = true -> length (t_mstates (q_start q)) <= 1 ->
@@ -569,17 +671,83 @@ Proof.
            (N.leb_spec lo v), (N.leb_spec v hi); cbn; try reflexivity; lia.
 Qed.
 
-Lemma keep_is_rec_sat : forall c q r,
-  states_free q = true -> validate c q = true -> mtime_wf q = true ->
-  length (t_mstates (q_start q)) <= 1 ->
-  keep c q r = rec_sat c q r.
+Lemma sel_is_rec_sat_rel : forall c q r o,
+  validate c q = true -> mtime_wf q = true -> length (t_mstates (q_start q)) <= 1 ->
+  sel c q r o = rec_sat_rel c q r o.
 Proof.
-  intros c q r Hf Hv Hw Hl. unfold keep, rec_sat.
-  rewrite mtime_skip_spec, scalar_skip_spec by assumption.
-  unfold states_free in Hf. repeat (apply andb_true_iff in Hf; destruct Hf as [Hf ?]).
-  destruct (q_active q); [|discriminate]. destruct (q_activated q); [|discriminate].
-  destruct (q_inactive q); [|discriminate]. destruct (q_deactivated q); [|discriminate].
+  intros c q r o Hv Hw Hl. unfold sel, keep, rec_sat_rel.
+  rewrite mtime_skip_spec, scalar_skip_spec by assumption. apply andb_assoc.
+Qed.
+
+Lemma find_latest_full_spec_lemma : forall c db limit q,
+  db_wf c db -> validate c q = true -> mtime_wf q = true ->
+  length (t_mstates (q_start q)) <= 1 ->
+  find_latest c db limit q = FlOk (find_latest_spec_rel c db limit q).
+Proof.
+  intros c db limit q Hd Hv Hw Hl. rewrite find_latest_closed by assumption.
+  unfold find_latest_spec_rel. f_equal. apply select_latest_ext. intros.
+  apply sel_is_rec_sat_rel; assumption.
+Qed.
+
+(* ---- ... which is the field comments' reading where the store is "linked" *)
+
+Lemma forallb_ext_in : forall {A} (f g : A -> bool) l,
+  (forall x, In x l -> f x = g x) -> forallb f l = forallb g l.
+Proof.
+  induction l as [|a l IH]; intros H; [reflexivity|]. cbn [forallb].
+  rewrite (H a) by (left; reflexivity). rewrite IH; [reflexivity|].
+  intros x Hx. apply H. right. exact Hx.
+Qed.
+
+Lemma linked_activated : forall c o r s,
+  linked_act c o r s = true -> rel_activated c r o s = st_activated c r s.
+Proof.
+  intros c o r s H. unfold linked_act, prev_active, rel_activated, st_activated in *.
+  destruct o as [x|]; [destruct (N.odd (tracked_tick c x s))|];
+    destruct (N.odd (tracked_tick c r s)), (N.odd (tracked_delta c r s));
+    cbn in *; try reflexivity; discriminate.
+Qed.
+
+Lemma linked_deactivated : forall c o r s,
+  linked_deact c o r s = true -> rel_deactivated c r o s = st_deactivated c r s.
+Proof.
+  intros c o r s H. unfold linked_deact, prev_active, rel_deactivated, st_deactivated in *.
+  destruct o as [x|]; [destruct (N.odd (tracked_tick c x s))|];
+    destruct (N.odd (tracked_tick c r s)), (N.odd (tracked_delta c r s));
+    cbn in *; try reflexivity; discriminate.
+Qed.
+
+Lemma linked_state_sat : forall c q o r,
+  linked_for c q o r = true -> state_sat c q r o = state_sat_doc c q r.
+Proof.
+  intros c q o r H. unfold linked_for in H.
+  apply andb_true_iff in H. destruct H as [Ha Hd]. rewrite forallb_forall in Ha, Hd.
+  unfold state_sat, state_sat_doc.
+  rewrite (forallb_ext_in (rel_activated c r o) (st_activated c r))
+    by (intros; apply linked_activated; apply Ha; assumption).
+  rewrite (forallb_ext_in (rel_deactivated c r o) (st_deactivated c r))
+    by (intros; apply linked_deactivated; apply Hd; assumption).
   reflexivity.
+Qed.
+
+Lemma find_latest_doc_partial_lemma : forall c db limit q,
+  db_wf c db -> validate c q = true -> mtime_wf q = true ->
+  length (t_mstates (q_start q)) <= 1 ->
+  (forall i r, nth_error db i = Some r -> linked_for c q (older_of db i) r = true) ->
+  find_latest c db limit q = FlOk (find_latest_spec c db limit q).
+Proof.
+  intros c db limit q Hd Hv Hw Hl Hk. rewrite find_latest_full_spec_lemma by assumption.
+  unfold find_latest_spec_rel, find_latest_spec. f_equal. apply select_latest_ext.
+  intros i r Hn. unfold rec_sat_rel, rec_sat. rewrite (linked_state_sat c q _ r (Hk i r Hn)).
+  reflexivity.
+Qed.
+
+Lemma states_free_linked : forall c q o r, states_free q = true -> linked_for c q o r = true.
+Proof.
+  intros c q o r Hf. unfold states_free in Hf.
+  repeat (apply andb_true_iff in Hf; destruct Hf as [Hf ?]).
+  unfold linked_for. destruct (q_activated q); [|discriminate].
+  destruct (q_deactivated q); [|discriminate]. reflexivity.
 Qed.
 
 Lemma find_latest_time_spec_lemma : forall c db limit q,
@@ -587,14 +755,8 @@ Lemma find_latest_time_spec_lemma : forall c db limit q,
   length (t_mstates (q_start q)) <= 1 ->
   find_latest c db limit q = FlOk (find_latest_spec c db limit q).
 Proof.
-  intros c db limit q Hd Hv Hf Hw Hl.
-  assert (inactive_oob c q = false) as Ho.
-  { unfold inactive_oob. unfold states_free in Hf.
-    repeat (apply andb_true_iff in Hf; destruct Hf as [Hf ?]).
-    destruct (q_inactive q); [reflexivity|discriminate]. }
-  rewrite find_latest_closed by assumption. unfold find_latest_spec. f_equal. f_equal.
-  rewrite (newest_first_positions (keep c q)). apply filter_ext. intros i.
-  destruct (nth_error db i); [|reflexivity]. apply keep_is_rec_sat; assumption.
+  intros c db limit q Hd Hv Hf Hw Hl. apply find_latest_doc_partial_lemma; try assumption.
+  intros. apply states_free_linked. exact Hf.
 Qed.
 
 (* ---- newest first, limited *)
@@ -627,14 +789,12 @@ Lemma newest_first_lemma : forall c db limit q idxs,
   db_wf c db -> find_latest c db limit q = FlOk idxs ->
   newest_first_ok db limit idxs = true.
 Proof.
-  intros c db limit q idxs Hd H. rewrite find_latest_states_partial_lemma in H by assumption.
-  destruct (validate c q) eqn:Hv; cbn [negb] in H; [|discriminate].
-  destruct (inactive_oob c q && negb (is_nil db)); [discriminate|].
-  rewrite find_latest_closed in H;
-    [|assumption|apply validate_strip; assumption|reflexivity].
-  inversion H as [E]. clear H.
-  rewrite (newest_first_positions (keep c (strip_states q))). unfold positions_desc.
-  set (g := fun i => match nth_error db i with Some r => keep c (strip_states q) r | None => false end).
+  intros c db limit q idxs Hd H. rewrite find_latest_state_conditions_lemma in H by assumption.
+  destruct (negb (validate c q)); [discriminate|].
+  inversion H as [E]. clear H. unfold select_latest, positions_desc.
+  set (g := fun i => match nth_error db i with
+                     | Some r => state_sat c q r (older_of db i) && time_cond_impl c q r
+                     | None => false end).
   destruct (desc_filter_seq g (length db)) as [D F].
   unfold newest_first_ok, take_limit.
   destruct (Z.ltb_spec 0 limit) as [Hl|Hl]; cbn [negb orb].
@@ -674,20 +834,34 @@ Definition w_query (a av i d : list nat) : query :=
   {| q_active := a; q_activated := av; q_inactive := i; q_deactivated := d;
      q_start := ctime0; q_end := ctime0 |}.
 
-Lemma find_latest_states_refuted_lemma :
+(* the oldest stored record has no predecessor: Sc, never active, counts as
+   "deactivated" by the record of Add Sa *)
+Lemma find_latest_doc_refuted_lemma :
   exists c txs q,
     validate c q = true /\
-    find_latest c (run_log c txs) 0 q = FlOk [4; 3; 2; 1; 0] /\
-    find_latest_spec c (run_log c txs) 0 q = [2; 1; 0].
+    find_latest c (run_log c txs) 0 q = FlOk [0] /\
+    find_latest_spec c (run_log c txs) 0 q = [].
 Proof.
-  exists (w_cfg [0; 2]), w_txs, (w_query [0] [] [] []). vm_compute. repeat split; reflexivity.
+  exists (w_cfg [0; 2]), w_txs, (w_query [] [] [] [2]). vm_compute. repeat split; reflexivity.
 Qed.
 
-Lemma find_latest_inactive_panics_lemma :
+(* Changed allow-list [Sb]: Add Sb (recorded), Add Sa (not recorded),
+   Remove Sb (recorded): Sa counts as "activated" by the record of Remove Sb *)
+Definition w_cfg_changed : hcfg :=
+  {| c_called := []; c_called_excl := false; c_changed := [1]; c_changed_excl := false;
+     c_rejected := false; c_store_tx := false; c_tracked := [0; 1]; c_max := 10 |}.
+Definition w_txs_unrec : list htx :=
+  [ w_tx 0 [1] [0;0;0;0]%N [0;1;0;0]%N 1;
+    w_tx 0 [0] [0;1;0;0]%N [1;1;0;0]%N 0;
+    w_tx 1 [1] [1;1;0;0]%N [1;2;0;0]%N 2 ].
+
+Lemma find_latest_doc_refuted_unrecorded_lemma :
   exists c txs q,
-    validate c q = true /\ find_latest c (run_log c txs) 0 q = FlPanic.
+    validate c q = true /\
+    find_latest c (run_log c txs) 0 q = FlOk [1] /\
+    find_latest_spec c (run_log c txs) 0 q = [].
 Proof.
-  exists (w_cfg [2]), w_txs, (w_query [] [] [2] []). vm_compute. split; reflexivity.
+  exists w_cfg_changed, w_txs_unrec, (w_query [] [0] [] []). vm_compute. repeat split; reflexivity.
 Qed.
 
 Definition w_mquery : query :=
@@ -707,11 +881,12 @@ Proof.
   vm_compute. repeat split; reflexivity.
 Qed.
 
-Lemma between_refuted_lemma :
+(* DeactivatedBetween Sc over the first record's instant: Sc was never active *)
+Lemma between_doc_refuted_lemma :
   exists c txs s hs he,
-    between c (run_log c txs) 0 s hs he = Some true /\
-    between_spec c (run_log c txs) 0 s hs he = false.
-Proof. exists (w_cfg [0; 2]), w_txs, 2, 1%N, 2%N. vm_compute. split; reflexivity. Qed.
+    between c (run_log c txs) 2 s hs he = Some true /\
+    between_spec c (run_log c txs) 2 s hs he = false.
+Proof. exists (w_cfg [0; 2]), w_txs, 2, 1%N, 1%N. vm_compute. split; reflexivity. Qed.
 
 (* ================================================================ *Between *)
 
@@ -728,48 +903,137 @@ Proof.
   rewrite existsb_app, IH. cbn [existsb]. rewrite orb_false_r. apply orb_comm.
 Qed.
 
-Lemma existsb_with_older : forall (P : hrec -> bool) db prev k,
-  existsb (fun t => P (trec t)) (with_older prev k db) = existsb P db.
+Lemma existsb_with_older : forall (P : hrec -> option hrec -> bool) db prev k,
+  existsb (fun t => P (trec t) (told t)) (with_older prev k db) = exists_with_older P prev db.
 Proof.
   induction db as [|r db IH]; intros; [reflexivity|].
-  cbn [with_older existsb trec fst snd]. rewrite IH. reflexivity.
+  cbn [with_older existsb exists_with_older trec told fst snd]. rewrite IH. reflexivity.
 Qed.
 
-Lemma existsb_ext' : forall {A} (f g : A -> bool) l,
-  (forall x, f x = g x) -> existsb f l = existsb g l.
-Proof. induction l; intros; cbn; [reflexivity|]. rewrite H, IHl by exact H. reflexivity. Qed.
-
-Lemma between_partial_lemma : forall c db kind s hs he,
-  db_wf c db -> (kind < 4)%N ->
-  between c db kind s hs he =
-    if negb (is_tracked c s) then Some false
-    else if (kind =? 3)%N && negb (s <? length (c_tracked c)) && negb (is_nil db) then None
-    else Some (existsb (fun r => in_range hs he (r_htime r)) db).
+Lemma exists_with_older_ext : forall (P Q : hrec -> option hrec -> bool) db prev,
+  (forall r o, P r o = Q r o) -> exists_with_older P prev db = exists_with_older Q prev db.
 Proof.
-  intros c db kind s hs he Hd Hk. unfold between.
-  rewrite find_latest_states_partial_lemma by assumption.
+  induction db as [|r db IH]; intros prev H; [reflexivity|].
+  cbn [exists_with_older]. rewrite H, (IH (Some r) H). reflexivity.
+Qed.
+
+Lemma exists_with_older_plain : forall (P : hrec -> option hrec -> bool) (Q : hrec -> bool) db prev,
+  (forall i r, nth_error db i = Some r -> P r (older_from prev db i) = Q r) ->
+  exists_with_older P prev db = existsb Q db.
+Proof.
+  induction db as [|r db IH]; intros prev H; [reflexivity|].
+  cbn [exists_with_older existsb]. pose proof (H 0 r eq_refl) as H0.
+  cbn [older_from] in H0. rewrite H0. f_equal.
+  apply IH. intros i r' Hn. pose proof (H (S i) r' Hn) as H1. cbn [older_from] in H1.
+  rewrite <- H1. destruct i; reflexivity.
+Qed.
+
+Lemma kind_cases : forall kind : N, (kind < 4)%N -> (kind = 0 \/ kind = 1 \/ kind = 2 \/ kind = 3)%N.
+Proof. intros. lia. Qed.
+
+Lemma between_validate : forall c kind s hs he,
+  (kind < 4)%N -> validate c (between_query kind s hs he) = is_tracked c s.
+Proof.
+  intros c kind s hs he Hk. unfold validate, between_query.
+  destruct (kind_cases kind Hk) as [K|[K|[K|K]]]; subst kind; cbn; rewrite ?andb_true_r; reflexivity.
+Qed.
+
+Lemma between_sel : forall c kind s hs he r o,
+  (kind < 4)%N ->
+  sel c (between_query kind s hs he) r o =
+  between_cond c kind s r o && in_range hs he (r_htime r).
+Proof.
+  intros c kind s hs he r o Hk. unfold sel, keep, state_sat, mtime_skip, scalar_skip, between_query.
+  destruct (kind_cases kind Hk) as [K|[K|[K|K]]]; subst kind; cbn;
+    rewrite ?orb_false_r, ?andb_true_r, range_skip_spec, negb_involutive; reflexivity.
+Qed.
+
+(* the helpers answer "is there a stored record within [hs,he] on which the
+   state condition holds" - never a panic *)
+Lemma between_exact_lemma : forall c db kind s hs he,
+  db_wf c db -> (kind < 4)%N ->
+  between c db kind s hs he = Some (between_spec_rel c db kind s hs he).
+Proof.
+  intros c db kind s hs he Hd Hk. unfold between, between_spec_rel.
+  pose proof (between_validate c kind s hs he Hk) as Hv.
+  destruct (is_tracked c s) eqn:Et; cbn [andb].
+  2:{ unfold find_latest. rewrite Hv. reflexivity. }
+  rewrite find_latest_closed_trip by assumption.
   set (q := between_query kind s hs he).
-  assert (validate c q = is_tracked c s) as Hv.
-  { assert (kind = 0 \/ kind = 1 \/ kind = 2 \/ kind = 3)%N as K by lia.
-    unfold validate, q, between_query.
-    destruct K as [K|[K|[K|K]]]; subst kind; cbn; rewrite ?andb_true_r; reflexivity. }
-  assert (inactive_oob c q = (kind =? 3)%N && negb (s <? length (c_tracked c))) as Ho.
-  { assert (kind = 0 \/ kind = 1 \/ kind = 2 \/ kind = 3)%N as K by lia.
-    unfold inactive_oob, q, between_query.
-    destruct K as [K|[K|[K|K]]]; subst kind; cbn; rewrite ?andb_true_r; reflexivity. }
-  rewrite Hv, Ho. destruct (is_tracked c s) eqn:Et; cbn [negb]; [|reflexivity].
-  destruct ((kind =? 3)%N && negb (s <? length (c_tracked c)) && negb (is_nil db)); [reflexivity|].
-  rewrite find_latest_closed;
-    [|assumption|apply validate_strip; exact Hv|reflexivity].
-  set (X := map tpos (filter (fun t => keep c (strip_states q) (trec t)) (newest_first db))).
-  assert (is_nil X = negb (existsb (fun r => in_range hs he (r_htime r)) db)) as Hx.
+  set (X := map tpos (filter (fun t => sel c q (trec t) (told t)) (newest_first db))).
+  assert (is_nil X = negb (exists_with_older
+            (fun r o => between_cond c kind s r o && in_range hs he (r_htime r)) None db)) as Hx.
   { unfold X. rewrite is_nil_map_filter. unfold newest_first.
-    rewrite existsb_rev', (existsb_with_older (keep c (strip_states q))). f_equal.
-    apply existsb_ext'. intros r. unfold keep, mtime_skip, scalar_skip, strip_states, q, between_query.
-    cbn. rewrite !orb_false_r, range_skip_spec, negb_involutive. reflexivity. }
+    rewrite existsb_rev', (existsb_with_older (sel c q)). f_equal.
+    apply exists_with_older_ext. intros. apply between_sel. exact Hk. }
   unfold take_limit. cbn. destruct X as [|x X']; cbn in *.
-  - f_equal. destruct (existsb _ db); [discriminate|reflexivity].
-  - f_equal. destruct (existsb _ db); [reflexivity|discriminate].
+  - f_equal. destruct (exists_with_older _ None db); [discriminate|reflexivity].
+  - f_equal. destruct (exists_with_older _ None db); [reflexivity|discriminate].
+Qed.
+
+Lemma activated_between_lemma : forall c db s hs he,
+  db_wf c db ->
+  between c db 0 s hs he =
+    Some (is_tracked c s &&
+          exists_with_older (fun r older => rel_activated c r older s
+                                            && in_range hs he (r_htime r)) None db).
+Proof. intros. apply (between_exact_lemma c db 0%N); [assumption|reflexivity]. Qed.
+
+Lemma deactivated_between_lemma : forall c db s hs he,
+  db_wf c db ->
+  between c db 2 s hs he =
+    Some (is_tracked c s &&
+          exists_with_older (fun r older => rel_deactivated c r older s
+                                            && in_range hs he (r_htime r)) None db).
+Proof. intros. apply (between_exact_lemma c db 2%N); [assumption|reflexivity]. Qed.
+
+Lemma active_between_lemma : forall c db s hs he,
+  db_wf c db ->
+  between c db 1 s hs he =
+    Some (is_tracked c s && existsb (fun r => st_active c r s && in_range hs he (r_htime r)) db).
+Proof.
+  intros. rewrite (between_exact_lemma c db 1%N) by (assumption || reflexivity).
+  unfold between_spec_rel. f_equal. f_equal. apply exists_with_older_plain. reflexivity.
+Qed.
+
+Lemma inactive_between_lemma : forall c db s hs he,
+  db_wf c db ->
+  between c db 3 s hs he =
+    Some (is_tracked c s && existsb (fun r => st_inactive c r s && in_range hs he (r_htime r)) db).
+Proof.
+  intros. rewrite (between_exact_lemma c db 3%N) by (assumption || reflexivity).
+  unfold between_spec_rel. f_equal. f_equal. apply exists_with_older_plain. reflexivity.
+Qed.
+
+Lemma between_rec_sat : forall c kind s hs he r,
+  (kind < 4)%N ->
+  rec_sat c (between_query kind s hs he) r =
+  match kind with
+  | 0%N => st_activated c r s | 1%N => st_active c r s
+  | 2%N => st_deactivated c r s | _ => st_inactive c r s
+  end && in_range hs he (r_htime r).
+Proof.
+  intros c kind s hs he r Hk. unfold rec_sat, state_sat_doc, mtime_sat, scalar_sat, between_query.
+  destruct (kind_cases kind Hk) as [K|[K|[K|K]]]; subst kind; cbn; rewrite ?andb_true_r; reflexivity.
+Qed.
+
+(* ... which is the field comments' reading for Active/Inactive always, and
+   for Activated/Deactivated where the store is linked for the state *)
+Lemma between_doc_partial_lemma : forall c db kind s hs he,
+  db_wf c db -> (kind < 4)%N ->
+  (kind = 1%N \/ kind = 3%N \/
+   forall i r, nth_error db i = Some r ->
+     (if (kind =? 0)%N then linked_act else linked_deact) c (older_of db i) r s = true) ->
+  between c db kind s hs he = Some (between_spec c db kind s hs he).
+Proof.
+  intros c db kind s hs he Hd Hk Hl. rewrite between_exact_lemma by assumption.
+  unfold between_spec_rel, between_spec. f_equal. f_equal.
+  apply exists_with_older_plain. intros i r Hn. rewrite between_rec_sat by exact Hk.
+  f_equal. replace (older_from None db i) with (older_of db i) by (destruct i; reflexivity).
+  destruct Hl as [K|[K|Hl]]; try (subst kind; reflexivity).
+  destruct (kind_cases kind Hk) as [K|[K|[K|K]]]; subst kind; cbn [between_cond]; try reflexivity.
+  - apply linked_activated. apply (Hl i r Hn).
+  - apply linked_deactivated. apply (Hl i r Hn).
 Qed.
 
 (* ================================================================ Export / Import *)
@@ -938,4 +1202,152 @@ Proof.
   inversion H; subst; clear H. cbn [c_tracked c_max].
   split; [exact Hp|]. split; [discriminate|].
   destruct (Z.leb_spec (w_max w) 0); lia.
+Qed.
+
+(* ================================================================ full histories *)
+
+Lemma w64_even : w64 = (2 * 9223372036854775808)%N.
+Proof. reflexivity. Qed.
+
+Lemma odd_mod_w64 : forall x, N.odd (x mod w64) = N.odd x.
+Proof.
+  intros x. pose proof (N.div_mod x w64 ltac:(unfold w64; discriminate)) as E.
+  symmetry. etransitivity;
+    [|apply (N.odd_add_mul_2 (x mod w64) (9223372036854775808 * (x / w64)))].
+  f_equal. rewrite N.mul_assoc. change (2 * 9223372036854775808)%N with w64.
+  rewrite N.add_comm. exact E.
+Qed.
+
+Lemma odd_sub64 : forall a b, N.odd (sub64 a b) = xorb (N.odd a) (N.odd b).
+Proof.
+  intros a b. unfold sub64. rewrite odd_mod_w64.
+  assert (b mod w64 < w64)%N as Hb by (apply N.mod_lt; unfold w64; discriminate).
+  set (b' := (b mod w64)%N) in *.
+  assert (N.odd (a + w64 - b' + b') = xorb (N.odd a) false) as H.
+  { replace (a + w64 - b' + b')%N with (a + w64)%N by lia.
+    rewrite N.odd_add. f_equal. }
+  rewrite N.odd_add in H. unfold b' in H. rewrite odd_mod_w64 in H. fold b' in H.
+  destruct (N.odd (a + w64 - b')), (N.odd a), (N.odd b); cbn in *; congruence.
+Qed.
+
+Lemma pos_in_from_nth : forall l k x i,
+  pos_in_from k l x = S (k + i) -> nth_error l i = Some x.
+Proof.
+  induction l as [|a l IH]; intros k x i H; cbn [pos_in_from] in H; [discriminate|].
+  destruct (Nat.eqb_spec x a).
+  - assert (i = 0) by lia. subst. reflexivity.
+  - destruct i.
+    + exfalso. assert (forall l k, S k <= pos_in_from k l x \/ pos_in_from k l x = 0) as G.
+      { clear. induction l as [|b l IH]; intros k; cbn [pos_in_from]; [right; reflexivity|].
+        destruct (Nat.eqb x b); [left; lia|]. destruct (IH (S k)); [left; lia|right; assumption]. }
+      destruct (G l (S k)); lia.
+    + cbn [nth_error]. apply (IH (S k)). rewrite H. lia.
+Qed.
+
+Lemma nth_zip_sub : forall a b i,
+  length a = length b -> i < length a ->
+  nth i (zip_sub a b) 0%N = sub64 (nth i a 0%N) (nth i b 0%N).
+Proof.
+  induction a as [|x a IH]; intros b i Hl Hi; [cbn in Hi; lia|].
+  destruct b as [|y b]; [discriminate|]. destruct i; [reflexivity|].
+  cbn [zip_sub nth]. apply IH; cbn in *; lia.
+Qed.
+
+(* the tick and the own-transition delta of a tracked state in the record of tx *)
+Lemma mk_record_tick : forall c p tx s,
+  is_tracked c s = true ->
+  tracked_tick c (mk_record c p tx) s = tick (x_after tx) s /\
+  tracked_delta c (mk_record c p tx) s = sub64 (tick (x_after tx) s) (tick (x_before tx) s).
+Proof.
+  intros c p tx s Hs. destruct (tracked_index_spec _ _ Hs) as (i & Hp & _ & Hlt).
+  assert (nth_error (c_tracked c) i = Some s) as Hn.
+  { unfold pos_in in Hp. apply (pos_in_from_nth _ 0). exact Hp. }
+  assert (forall t, nth i (time_filter t (c_tracked c)) 0%N = tick t s) as Hf.
+  { intros t. unfold time_filter.
+    rewrite (nth_indep _ 0%N (tick t 0)) by (rewrite map_length; exact Hlt).
+    rewrite map_nth. f_equal. apply nth_error_nth. exact Hn. }
+  unfold tracked_tick, tracked_delta. rewrite Hp. cbn [mk_record r_tracked r_tracked_diff].
+  split; [apply Hf|].
+  unfold diff_since, time_filter. rewrite !map_length, Nat.eqb_refl.
+  rewrite nth_zip_sub; [|rewrite !map_length; reflexivity|rewrite map_length; exact Hlt].
+  fold (time_filter (x_after tx) (c_tracked c)). fold (time_filter (x_before tx) (c_tracked c)).
+  rewrite !Hf. reflexivity.
+Qed.
+
+Lemma recs_nth : forall c txs prev i r,
+  nth_error (recs c prev txs) i = Some r ->
+  exists p tx, nth_error txs i = Some tx /\ r = mk_record c p tx.
+Proof.
+  induction txs as [|a txs IH]; intros prev i r H; [destruct i; discriminate|].
+  destruct i; cbn [recs nth_error] in *.
+  - inversion H. exists prev, a. split; reflexivity.
+  - apply (IH _ _ _ H).
+Qed.
+
+Lemma chained_nth0 : forall txs cur tx,
+  chained cur txs -> nth_error txs 0 = Some tx -> x_before tx = cur.
+Proof.
+  intros [|a txs] cur tx Hc Hn; [discriminate|]. inversion Hn; subst. apply Hc.
+Qed.
+
+Lemma chained_nthS : forall txs cur j tx,
+  chained cur txs -> nth_error txs (S j) = Some tx ->
+  exists t, nth_error txs j = Some t /\ x_before tx = x_after t.
+Proof.
+  induction txs as [|a txs IH]; intros cur j tx Hc Hn; [discriminate|].
+  destruct Hc as [_ Hc]. cbn [nth_error] in Hn. destruct j as [|j].
+  - exists a. split; [reflexivity|]. apply (chained_nth0 _ _ _ Hc Hn).
+  - destruct (IH _ _ _ Hc Hn) as (t & Ht & Hb). exists t. split; assumption.
+Qed.
+
+Lemma filter_all : forall {A} (f : A -> bool) l, (forall x, In x l -> f x = true) -> filter f l = l.
+Proof.
+  induction l as [|a l IH]; intros H; [reflexivity|]. cbn [filter].
+  rewrite (H a) by (left; reflexivity). f_equal. apply IH. intros. apply H. right. assumption.
+Qed.
+
+Lemma full_history_linked : forall c txs init s i r,
+  chained init txs ->
+  N.odd (tick init s) = false -> is_tracked c s = true ->
+  nth_error (recs c None txs) i = Some r ->
+  linked_act c (older_of (recs c None txs) i) r s = true.
+Proof.
+  intros c txs init s i r Hc Hi Hs Hn.
+  destruct (recs_nth _ _ _ _ _ Hn) as (p & tx & Htx & ->).
+  destruct (mk_record_tick c p tx s Hs) as [Ht Hd].
+  unfold linked_act, prev_active. rewrite Ht, Hd, odd_sub64.
+  destruct i as [|j]; cbn [older_of].
+  - rewrite (chained_nth0 _ _ _ Hc Htx), Hi. destruct (N.odd (tick (x_after tx) s)); reflexivity.
+  - destruct (chained_nthS _ _ _ _ Hc Htx) as (tx' & Htx' & Hb).
+    destruct (nth_error (recs c None txs) j) as [o|] eqn:Eo.
+    + destruct (recs_nth _ _ _ _ _ Eo) as (p' & tx2 & Htx2 & ->).
+      rewrite Htx' in Htx2. inversion Htx2; subst tx2.
+      destruct (mk_record_tick c p' tx' s Hs) as [Ht' _]. rewrite Ht', Hb.
+      destruct (N.odd (tick (x_after tx) s)), (N.odd (tick (x_after tx') s)); reflexivity.
+    + exfalso. apply nth_error_None in Eo. rewrite recs_length in Eo.
+      assert (j < length txs) by (apply nth_error_Some; congruence). lia.
+Qed.
+
+(* on the complete, unrotated history of states that start inactive, Active /
+   Activated / Inactive queries mean what the field comments say *)
+Lemma find_latest_doc_full_history_lemma : forall c txs init limit q,
+  1 <= c_max c -> length txs <= c_max c ->
+  (forall tx, In tx txs -> matches c tx = true) ->
+  chained init txs ->
+  (forall s, In s (c_tracked c) -> N.odd (tick init s) = false) ->
+  validate c q = true -> mtime_wf q = true -> length (t_mstates (q_start q)) <= 1 ->
+  q_deactivated q = [] ->
+  find_latest c (run_log c txs) limit q = FlOk (find_latest_spec c (run_log c txs) limit q).
+Proof.
+  intros c txs init limit q Hm Hlen Hall Hc Hinit Hv Hw Hl Hd.
+  assert (run_log c txs = recs c None txs) as E.
+  { rewrite run_log_is_reference by exact Hm. rewrite filter_all by exact Hall.
+    apply lastn_all. rewrite recs_length. exact Hlen. }
+  apply find_latest_doc_partial_lemma; try assumption.
+  - apply run_log_wf. exact Hm.
+  - rewrite E. intros i r Hn. unfold linked_for. rewrite Hd. cbn [forallb]. rewrite andb_true_r.
+    destruct (validate_parts _ _ Hv) as (_ & H2 & _).
+    apply forallb_forall. intros s Hs. rewrite forallb_forall in H2. specialize (H2 s Hs).
+    apply (full_history_linked c txs init); try assumption.
+    apply Hinit. apply mem_In. exact H2.
 Qed.
